@@ -22,7 +22,7 @@ def models_start(quick):
     return hg.models_start(specs, workers=2)
 
 
-def scenario(name, hist):
+def scenario(name, hist, how="tryexc"):
     acts = {1: ["-"], 2: ["-"], 3: ["-"]}
     ticks = []
     want_act, want_err = [], []
@@ -38,8 +38,14 @@ def scenario(name, hist):
             want_act.append((a["n"], cyc["t"]))
     lines = ["scn " + name, "opt start=1 end=%d" % (MAXT + 1), "graph g0 nin=1",
              "n 11 schedo in=a0 acts=%s" % "/".join(acts[1]), "n 12 schedo in=11 acts=%s" % "/".join(acts[2]),
-             "n 13 schedo in=11 acts=%s" % "/".join(acts[3]), "out 13", "endgraph", "graph root",
-             "n 1 src script=%s" % (";".join("%d:%d" % (t, t) for t in ticks) or "99:1"), "n 2 tryexc g=0 in=1", "endgraph", "run"]
+             "n 13 schedo in=11 acts=%s" % "/".join(acts[3]), "out 13", "endgraph", "graph root"]
+    if how == "tryexc":
+        lines += ["n 1 src script=%s" % (";".join("%d:%d" % (t, t) for t in ticks) or "99:1"), "n 2 tryexc g=0 in=1"]
+    else:
+        # the same sub-graph as the child of ONE key of a map_ with per-key error capture: the key appears in the start
+        # cycle (the child is created and started there), the outer ticks are updates of its element
+        lines += ["n 1 dsrc script=%s" % ";".join("%d:1=%d" % (t, t) for t in sorted(set([1] + ticks))), "n 3 map g=0 key=0 err=1 in=1", "n 4 drec in=3"]
+    lines += ["endgraph", "run"]
     return "\n".join(lines), want_act, want_err
 
 
@@ -53,6 +59,7 @@ def run(chk, rng, own=("C02.", "C03.", "C15."), nsim=None, models=True):
         raise hg.MachineryError("AbortScan.tla violates its invariants in simulation:\n" + sim.violation)
     behs = hg.printed_json(sim, "ABORT")
     cases = [scenario("abort%d" % k, h) for k, h in enumerate(behs)]
+    cases += [scenario("abortmap%d" % k, h, how="map") for k, h in enumerate(behs) if k % 2 == 0]
     traces = hg.run_driver("engine", [c[0] for c in cases])
     nthrow = 0
     for (scn, want_act, want_err), tr in zip(cases, traces):
@@ -65,7 +72,7 @@ def run(chk, rng, own=("C02.", "C03.", "C15."), nsim=None, models=True):
             chk.violation("abortscan:run", "try_except scenario did not run to its end: %s" % (bad or [e for e in tr if e["e"] == "ret"]), scn)
             continue
         got_act = [(e["id"] - 10, e["t"]) for e in tr if e["e"] == "sact" and e["k"] >= 1]
-        got_err = [e["t"] for e in tr if e["e"] == "err"]
+        got_err = [e["t"] for e in tr if e["e"] in ("err", "kerr")]
         nthrow += len(want_err)
         chk.coverage["traces_validated_against_impl"] += 1
         why = None
